@@ -70,6 +70,9 @@ func History(r *rand.Rand, p Profile) []Op {
 			ops = append(ops, Op{Kind: "rbegin"})
 		case x < 65:
 			ops = append(ops, Op{Kind: "rnext"})
+		case x < 68:
+			// leave an event a few bytes before the end of a page
+			ops = append(ops, Op{Kind: "rnext"}, Op{Kind: "readgap", N: 1 + r.Intn(5)}, Op{Kind: "rnext"})
 		case x < 78:
 			ops = append(ops, Op{Kind: "read", N: 1 + r.Intn(2*p.PageSize)})
 		case x < 83:
